@@ -377,7 +377,12 @@ qb_log_target_format(int32_t target,
 	}
 
 	while ((c = t->format[format_buffer_idx])) {
-		if (output_buffer_idx + 1 >= t->max_line_length) {
+		/*
+		 * A full line is only cut short if something else would have
+		 * to go into it: a literal character does, a directive may
+		 * expand to nothing (it is checked where it is expanded).
+		 */
+		if (c != '%' && output_buffer_idx + 1 >= t->max_line_length) {
 			truncated = QB_TRUE;
 			break;
 		}
